@@ -55,8 +55,10 @@ def run(tier, seed):
                 N, ref = row[0], row[1]
                 L = ref[3] if gen.well_formed_ref(ref) and len(ref) == 6 else None
                 val = val_for(ref)
+                sib_i = [k for k in range(1, len(rows) + 1) if k != i and not (S == 'MSH' and k <= 2)]
+                sib = ('%s_%d' % (S.lower(), rng.choice(sib_i)),) if sib_i else ()
                 for x in spellings(N, L, longs, seg_attrs, rng, isfull):
-                    jobs.append((v, 'S', S, x, N.lower(), val))
+                    jobs.append((v, 'S', S, x, N.lower(), val) + sib)
                     meta.append((N, S + '|' * (i - 1 if S == 'MSH' else i) + val))
                     model.append('RESF %s %s %s' % (v, S, vlib.hexs(x)))
             # negative: other parents' children, out-of-range, malformed
@@ -91,16 +93,19 @@ def run(tier, seed):
                 sp = spellings(CN, CL, clongs, fld_attrs, rng, isfull)
                 pos = '%s_%d' % (F, j)
                 sp += [pos, pos.lower()] if isfull else [pos.lower()]
+                sib = ('%s_%d' % (F.lower(), rng.choice([k for k in range(1, len(crows) + 1) if k != j])),) if len(crows) > 1 else ()
                 for x in sp:
-                    jobs.append((v, 'F', F, x, CN.lower(), val))
+                    jobs.append((v, 'F', F, x, CN.lower(), val) + sib)
                     meta.append((CN, '^' * (j - 1) + val))
                     model.append('RESC %s %s %s' % (v, F, vlib.hexs(x)))
                 if gen.well_formed_ref(cref) and len(cref) == 6 and cref[0] == 'sequence' and gen.is_seq(cref[1]):
                     for k, srow in enumerate(cref[1], 1):
                         sval = val_for(srow[1])
                         pos = '%s_%d_%d' % (F, j, k)
+                        # the sibling that must survive the delete: another subcomponent of the SAME component (seed C09-g deleted the whole component)
+                        sib = ('%s_%d_%d' % (F.lower(), j, rng.choice([q for q in range(1, len(cref[1]) + 1) if q != k])),) if len(cref[1]) > 1 else ()
                         for x in ([pos, pos.lower(), mixed(pos)] if isfull else [pos.lower()]):
-                            jobs.append((v, 'F', F, x, pos.lower(), sval))
+                            jobs.append((v, 'F', F, x, pos.lower(), sval) + sib)
                             meta.append((CN, '^' * (j - 1) + '&' * (k - 1) + sval))
                             model.append('RESC %s %s %s' % (v, F, vlib.hexs(x)))
             n = len(crows)
